@@ -745,7 +745,10 @@ def main():
         for d in sorted(glob.glob(os.path.join(VERIF, 'seeded', '*'))):
             mp = os.path.join(d, 'meta.json')
             if os.path.exists(mp):
-                todo.append(('seeded-' + os.path.basename(d), os.path.join(d, 'patch.diff'), json.load(open(mp))['property']))
+                meta = json.load(open(mp))
+                if meta.get('property') is None:
+                    continue        # recorded as outside every claimed statement (see its detection_note)
+                todo.append(('seeded-' + os.path.basename(d), os.path.join(d, 'patch.diff'), meta['property']))
         if len(a) > 1:
             todo = [t for t in todo if any(x in t[0] for x in a[1:])]
         results = {}
